@@ -34,7 +34,7 @@ def plan(tier, seed, rng, scale):
         for rcmode in (True, False):
             for nested in (False, True):
                 descs.append({'k': k, 'rc': rcmode, 'nested': nested, 'seed': rng.getrandbits(32)})
-    n = int((900 if tier == 'quick' else 20000) * scale)
+    n = int((3000 if tier == 'quick' else 30000) * scale)
     for i in range(n):
         descs.append({'k': rng.choice(G.ALL_K), 'rc': rng.random() < 0.7, 'nested': rng.random() < 0.4,
                       'seed': rng.getrandbits(32)})
